@@ -6,7 +6,7 @@ use vrl::compiler::runtime::{Runtime, Terminate};
 
 use crate::engine::{Run, V};
 use crate::gens::mutprog::{self, Cfg, MutCase};
-use crate::gens::prog::program_src;
+use crate::gens::prog::{program_src, rewrite, E};
 use crate::gens::proggen::{self, ProgCase};
 use crate::gens::value::TV;
 use crate::model::targets::{FaultMode, FaultPlan, FaultTarget, Op};
@@ -15,7 +15,7 @@ use crate::vrlx::{self, End};
 
 pub const SW_UNNEST: &str = "c17-unnest-with-rejected-root-read";
 
-pub const RULE: &str = "cases = (accepted program x event x metadata) x fault plan. Programs come from the mutation-heavy generator (gens/mutprog.rs with extras: writes, `|=`, `ok, err =`, del with/without compact, get/set/remove on `.`/`%`, exists, unnest, for_each(.), map_values(.), container queries, templates; at top level and inside branches, closures, blocks, `||`/`&&`/`??` operands) and from the shared program generator (gens/proggen.rs). A fault plan is, per operation kind (get incl. get_mut / insert / remove), a 12-bit mask of ordinals that are rejected plus optionally 'every operation of this kind from ordinal n on', plus optionally 'every read of the event root'. Oracle (differential): run A executes the program (Program::resolve) on a Target wrapper that returns Err(\"injected\") at the planned operations without touching the wrapped TargetValue; run B on a wrapper that at the same operations skips (get -> Ok(None), insert -> Ok(()) without inserting, remove -> Ok(None) without removing). Neither run may panic, and both must end the same way (ok / return / error / abort; same value; same abort message) with equal final event and metadata. With an empty plan both must also equal a run on the bare TargetValue (wrapper transparency). Sub-check `root_read_failure`: Runtime::resolve on a target whose event-root read is rejected must return Terminate::Error, must not panic, and must leave event and metadata unchanged. Non-trivial = at least one planned fault was reached and the program performed at least one more target operation afterwards (root_read_failure: always non-trivial). Distinct = distinct serialised cases.";
+pub const RULE: &str = "cases = (accepted program x event x metadata) x fault plan. Programs come from the mutation-heavy generator (gens/mutprog.rs with extras: writes, `|=`, `ok, err =`, del with/without compact, get/set/remove on `.`/`%`, exists, unnest, for_each(.), map_values(.), container queries, templates; at top level and inside branches, closures, blocks, `||`/`&&`/`??` operands) and from the shared program generator (gens/proggen.rs). A fault plan is, per operation kind (get incl. get_mut / insert / remove), a 12-bit mask of ordinals that are rejected plus optionally 'every operation of this kind from ordinal n on', plus optionally 'every read of the event root'. Oracle (differential): run A executes the program (Program::resolve) on a Target wrapper that returns Err(\"injected\") at the planned operations without touching the wrapped TargetValue; run B on a wrapper that at the same operations skips (get -> Ok(None), insert -> Ok(()) without inserting, remove -> Ok(None) without removing). Neither run may panic, and both must end the same way (ok / return / error / abort; same value; same abort message) with equal final event and metadata. With an empty plan both must also equal a run on the bare TargetValue (wrapper transparency). Sub-check `root_read_failure`: Runtime::resolve on a target whose event-root read is rejected must return Terminate::Error, must not panic, and must leave event and metadata unchanged. Sub-checks `writes_rejected_*`: the same generators with every deletion replaced by `exists(..)` (generated programs: deletion weight 0), run on a target that rejects every write (reads faulted per plan, deletions never planned); since only del(..) deletes from the target, the final event and metadata must equal the initial ones and the target must have seen no deletion at all (non-trivial = at least one write was attempted). Non-trivial = at least one planned fault was reached and the program performed at least one more target operation afterwards (root_read_failure: always non-trivial). Distinct = distinct serialised cases.";
 pub const NOTE: &str = "error message texts of failing runs are not compared (only the outcome class), abort messages are; the wrapped target is vrl's own TargetValue; secrets are not faulted (SecretTarget has no error channel)";
 
 #[derive(Clone, Debug, Serialize, Deserialize)]
@@ -124,6 +124,83 @@ fn check_root(c: &FaultCase) -> V {
     V::pass().nontrivial(true).class("terminate_error")
 }
 
+
+/// every write is rejected and the program contains no deletion: the target must stay as it was
+fn check_writes_rejected(c: &FaultCase) -> V {
+    let res = match vrlx::compile(&c.src) {
+        Ok(r) => r,
+        Err(d) => {
+            let code = vrlx::diag_codes(&d).first().copied().unwrap_or(0);
+            return V::discard(crate::props::c22::intern(format!("rejected_E{code}")));
+        }
+    };
+    if c.src.contains("del(") {
+        return V::discard("program_with_del");
+    }
+    let plan = FaultPlan { insert_mask: 0, insert_from: Some(0), remove_mask: 0, remove_from: None, ..c.plan.clone() };
+    let mut t = FaultTarget::new(c.event.to_value(), c.meta.to_value(), plan.clone(), FaultMode::Reject);
+    let (end, _) = vrlx::run_on(&res.program, &mut t, &vrlx::utc());
+    let ctx = || format!("\n--- program:\n{}--- event: {}\n--- metadata: {}\n--- plan: {:?}\n--- run ended: {:?}", c.src, c.event.to_value(), c.meta.to_value(), plan, end);
+    if t.inner.value != c.event.to_value() {
+        return V::fail_sig("c17:rejected-write-event", format!("every write was rejected and the program deletes nothing, but the event changed to {}{}", t.inner.value, ctx()));
+    }
+    if t.inner.metadata != c.meta.to_value() {
+        return V::fail_sig("c17:rejected-write-metadata", format!("every write was rejected and the program deletes nothing, but the metadata changed to {}{}", t.inner.metadata, ctx()));
+    }
+    if t.remove_ops() != 0 {
+        return V::fail_sig("c17:spurious-remove", format!("the program contains no del(..) but performed {} deletion(s) on the target{}", t.remove_ops(), ctx()));
+    }
+    let root_write = c.src.lines().any(|l| {
+        let l = l.trim_start();
+        l.starts_with(". =") || l.starts_with("% =") || l.starts_with(". |=") || l.starts_with("% |=") || l.starts_with("., ") || l.starts_with("%, ")
+    });
+    V::pass()
+        .nontrivial(t.insert_ops() >= 1)
+        .class(end.class())
+        .class_if(t.insert_ops() >= 1, "write_rejected")
+        .class_if(t.insert_ops() >= 3, "three_or_more_writes_rejected")
+        .class_if(root_write, "program_with_root_assignment")
+        .class_if(t.insert_ops() == 0, "no_write_reached")
+        .class_if(c.src.contains("for_each(") || c.src.contains("map_values(") || c.src.contains("filter("), "program_with_closure")
+}
+
+fn without_del(mut prog: Vec<E>) -> Vec<E> {
+    for s in &mut prog {
+        rewrite(s, &mut |x| {
+            if let E::Del { target, .. } = x {
+                *x = E::Exists(target.clone());
+            }
+        });
+    }
+    prog
+}
+
+fn writes_rejected_source_cases() -> Vec<FaultCase> {
+    use crate::props::pinned::ev;
+    let e = ev(&[("a", ev(&[("b", TV::Int(1))])), ("arr", TV::Array(vec![TV::Int(1), TV::Int(2)])), ("s", TV::Str("{\"k\": 1}".into())), ("keep", TV::Str("me".into()))]);
+    let m = ev(&[("m", TV::Int(1))]);
+    let progs = [
+        ". = {\"b\": 2}\n[., %]",
+        "% = {\"other\": 1}\n[., %]",
+        ". |= {\"z\": 1}\n% |= {\"z\": 1}\n[., %]",
+        "., err = parse_json(.s)\n[., %]",
+        ". = object!(parse_json!(.s))\n.a.b = 2\n%m = 2\n[., %]",
+        ". = set!(., [\"a\", \"c\"], 1)\n[., %]",
+        ".a.b = 2\n.arr[5] = 1\n.new = .keep\n%x.y = 1\n[., %]",
+        "for_each(array!(.arr)) -> |_i, v| { . = {\"v\": v} }\nif exists(.a) { % = {} }\n[., %]",
+        ". = map_values(.) -> |v| { .q = v; v }\n[., %]",
+        ".a = 1\n. = {}\n.b = 2\n% = {}\n[., %]",
+    ];
+    let mut out = Vec::new();
+    for p in progs {
+        out.push(FaultCase { src: format!("{p}\n"), event: e.clone(), meta: m.clone(), plan: FaultPlan::default() });
+        for i in 0..3u32 {
+            out.push(FaultCase { src: format!("{p}\n"), event: e.clone(), meta: m.clone(), plan: FaultPlan { get_mask: 1 << i, ..FaultPlan::default() } });
+        }
+    }
+    out
+}
+
 fn from_mut(c: MutCase, plan: FaultPlan) -> FaultCase {
     FaultCase { src: program_src(&c.prog), event: c.event, meta: c.meta, plan }
 }
@@ -194,5 +271,18 @@ pub fn run(r: &mut Run) {
     r.sub("faults_in_mutation_programs", 100_000, 5_500_000, move || (mutprog::strategy(cfg), plan_strategy()).prop_map(|(c, p)| from_mut(c, p)), check);
     let preset = proggen::Preset { returns: 2, aborts: 2, dels: 4, closures: 3, ..progdiff::base_preset(r) };
     r.sub("faults_in_generated_programs", 35_000, 2_000_000, move || (proggen::strategy(preset), plan_strategy()).prop_map(|(c, p)| from_prog(c, p)), check);
+    r.enumerate("writes_rejected_source_cases", writes_rejected_source_cases(), must_compile(check_writes_rejected));
+    r.sub(
+        "writes_rejected_in_mutation_programs",
+        40_000,
+        2_000_000,
+        move || (mutprog::strategy(cfg), plan_strategy()).prop_map(|(mut c, p)| {
+            c.prog = without_del(std::mem::take(&mut c.prog));
+            from_mut(c, p)
+        }),
+        check_writes_rejected,
+    );
+    let nodel = proggen::Preset { returns: 2, aborts: 1, dels: 0, closures: 3, ..progdiff::base_preset(r) };
+    r.sub("writes_rejected_in_generated_programs", 20_000, 1_000_000, move || (proggen::strategy(nodel), plan_strategy()).prop_map(|(c, p)| from_prog(c, p)), check_writes_rejected);
     r.sub("root_read_failure", 15_000, 500_000, move || (mutprog::strategy(cfg), plan_strategy()).prop_map(|(c, p)| from_mut(c, p)), check_root);
 }
